@@ -151,7 +151,11 @@ BulkOps ==
   ELSE {[name |-> "s_extend", items |-> it] : it \in ItemSeqs}
        \cup (IF A.len = 0 THEN {[name |-> "s_from_iter", items |-> it] : it \in ItemSeqs}
                                 \cup {[name |-> "s_from_array", items |-> it] : it \in {x \in ItemSeqs : Len(x) = Cap}} ELSE {})
+DstSeqs == {<<>>} \cup {<<[c |-> c, r |-> 0, v |-> 0]>> : c \in Classes}
+           \cup (IF Cap >= 2 THEN {x \in {<<[c |-> c, r |-> 0, v |-> 0], [c |-> d, r |-> 0, v |-> 0]>> : c \in Classes, d \in Classes} : x[1].c # x[2].c} ELSE {})
+CloneFromNames == {"clone_from", "s_clone_from"}
 CloneOps == {[name |-> "clone", then |-> [name |-> "none"], on |-> "orig", survivor |-> sv] : sv \in {"orig", "copy"}}
+            \cup {[name |-> IF IsMap THEN "clone_from" ELSE "s_clone_from", dst |-> d] : d \in DstSeqs}
 
 \* binary operations of Set (set/eq.rs, set/methods.rs, the lazy adaptors, set/sub.rs) against a second
 \* set holding the classes b (its key objects are 50 + i)
@@ -225,6 +229,9 @@ Start(op) ==
        [] op.name \in {"cursor", "s_into_iter"} -> pc' = "ci0" /\ L' = l
        [] op.name \in {"from_iter", "from_array", "s_from_iter", "s_from_array", "s_extend"} -> pc' = "bk0" /\ L' = l
        [] op.name = "clone" -> pc' = "cl0" /\ L' = l
+       [] op.name \in CloneFromNames ->      \* the destination (objects 60 + i) is held in L.b
+            pc' = "cl0" /\ L' = [l EXCEPT !.b = [len |-> Len(op.dst),
+                                                  s |-> [i \in 1..Cap |-> IF i <= Len(op.dst) THEN LiveSlot(op.dst[i].c, 60 + i, IF IsMap THEN 60 + i ELSE 0) ELSE Blank]]]
        [] op.name \in {"retain", "s_retain"} -> pc' = "rt" /\ L' = l
        [] op.name \in {"clear", "s_clear"}   -> pc' = "clr0" /\ L' = l
        [] op.name \in {"drop", "s_drop"}     -> pc' = "drp" /\ L' = l
@@ -320,8 +327,9 @@ Unwind ==
   /\ hist' = hist \o LocalDrops(L.own) \o (IF HasT THEN ContDrops(T, 1) ELSE <<>>)
   /\ viol' = Note(viol, ~HasT \/ ContAllLive(T, 1), "unwinding destroyed a slot of a half-built container that holds no live element")
   /\ T' = NoT
-  /\ L' = [L EXCEPT !.own = <<>>]
-  /\ pc' = "done"
+  /\ IF L.op.name \in CloneFromNames      \* (the harness still drops the untouched destination, in a call of its own)
+     THEN pc' = "cf_drop" /\ L' = [L EXCEPT !.own = <<>>, !.i = 1, !.soft = "cf_gone"]
+     ELSE pc' = "done" /\ L' = [L EXCEPT !.own = <<>>]
 
 \* ================================================================ op tails ==
 LookupAfter ==
@@ -699,7 +707,10 @@ CloneStart ==
 CloneKey ==
   /\ pc = "cl_k"
   /\ UNCHANGED <<A, T>>
-  /\ IF L.i > A.len THEN pc' = "cl_eq" /\ L' = [L EXCEPT !.i = 1, !.j = 1, !.soft = "cl_eq"] /\ UNCHANGED <<budget, viol, hist>>
+  /\ IF L.i > A.len
+     THEN /\ UNCHANGED <<budget, viol, hist>>
+          /\ IF L.op.name \in CloneFromNames THEN pc' = "cf_old" /\ L' = [L EXCEPT !.i = 1, !.soft = "cf_swap_p"]
+             ELSE pc' = "cl_eq" /\ L' = [L EXCEPT !.i = 1, !.j = 1, !.soft = "cl_eq"]
      ELSE /\ hist' = Append(hist, Cb("c", A.s[L.i].kt, 0))
           /\ viol' = Note(viol, A.s[L.i].st = "l", "clone read a slot that holds no live element")
           /\ (Inject \/ (UNCHANGED budget /\ pc' = "cl_v" /\ L' = [L EXCEPT !.own = <<KObj(20 + A.s[L.i].kt)>>]))
@@ -714,12 +725,15 @@ CloneVal ==
      ELSE UNCHANGED <<budget, hist>> /\ wr
 \* eq.rs: equal len, then for every pair of the left operand: right.get(k) == Some(v)
 \* L.j = 1: copy == orig (left T, right A); L.j = 2: orig == copy
-EqLeft == IF L.j = 1 THEN T ELSE A
-EqRightName == IF L.j = 1 THEN "A" ELSE "T"
+\* (clone: the copy is T; clone_from: the destination is L.b)
+EqOther == IF L.op.name \in CloneFromNames THEN "B" ELSE "T"
+EqLeft == IF L.j = 1 THEN On(EqOther) ELSE A
+EqRightName == IF L.j = 1 THEN "A" ELSE EqOther
 CloneEq ==
   /\ pc = "cl_eq"
   /\ UNCHANGED <<A, T, budget, viol, hist>>
-  /\ IF L.j > 2 THEN pc' = "cl_swap" /\ L' = [L EXCEPT !.soft = "cl_gone", !.i = 1]
+  /\ IF L.j > 2 THEN (IF L.op.name \in CloneFromNames THEN pc' = "cf_drop" /\ L' = [L EXCEPT !.soft = "cf_gone", !.i = 1]
+                      ELSE pc' = "cl_swap" /\ L' = [L EXCEPT !.soft = "cl_gone", !.i = 1])
      ELSE IF L.i > EqLeft.len \/ EqLeft.len # On(EqRightName).len THEN pc' = "cl_eq" /\ L' = [L EXCEPT !.j = @ + 1, !.i = 1]
      ELSE /\ pc' = "scan"
           /\ L' = StartScan([L EXCEPT !.soft = "cl_eqp"], EqRightName, "e", TRUE, EqLeft.s[L.i].kt, EqLeft.s[L.i].c, "cl_eqv")
@@ -828,6 +842,27 @@ SubDrop ==
           /\ pc' = "dropping" /\ L' = GoDrop([L EXCEPT !.i = @ + 1], PairDrops(T.s[L.i].kt, T.s[L.i].vt), "bs_drop")
           /\ UNCHANGED hist
 
+\* Clone::clone_from (the default): *self = source.clone() - the clone is complete before the old
+\* value of the destination is dropped; the assignment writes the new value even when that drop panics
+CloneFromOld ==
+  /\ pc = "cf_old" /\ UNCHANGED <<A, T, budget, viol, hist>>
+  /\ IF L.i > L.b.len THEN pc' = "cf_swap" /\ L' = L
+     ELSE pc' = "dropping"
+          /\ L' = GoDrop([L EXCEPT !.i = @ + 1, !.b.s[L.i].st = "d"], PairDrops(L.b.s[L.i].kt, L.b.s[L.i].vt), "cf_old")
+CloneFromSwap ==
+  /\ pc \in {"cf_swap", "cf_swap_p"} /\ UNCHANGED <<A, budget, viol, hist>>
+  /\ T' = NoT
+  /\ IF pc = "cf_swap" THEN pc' = "cl_eq" /\ L' = [L EXCEPT !.b = T, !.i = 1, !.j = 1, !.soft = "cl_eq"]
+     ELSE pc' = "cf_drop" /\ L' = [L EXCEPT !.b = T, !.i = 1, !.soft = "cf_gone"]
+CloneFromDrop ==
+  /\ pc = "cf_drop" /\ UNCHANGED <<A, T, budget, hist>>
+  /\ IF L.i > L.b.len THEN pc' = "cf_gone" /\ L' = L /\ UNCHANGED viol
+     ELSE /\ viol' = Note(viol, L.b.s[L.i].st = "l", "Drop destroyed a slot that holds no live element")
+          /\ pc' = "dropping"
+          /\ L' = GoDrop([L EXCEPT !.i = @ + 1, !.b.s[L.i].st = "d"], PairDrops(L.b.s[L.i].kt, L.b.s[L.i].vt), "cf_drop")
+CloneFromGone ==
+  /\ pc = "cf_gone" /\ pc' = "done" /\ T' = NoT /\ UNCHANGED <<A, budget, viol, hist, L>>
+
 \* ==================================================================== spec ==
 Init == A = Fresh /\ T = NoT /\ pc = "idle" /\ L = L0 /\ budget = 0 /\ viol = "none" /\ hist = <<>>
 
@@ -854,6 +889,7 @@ Next ==
   \/ CursorStart \/ CursorNext \/ CursorDebug \/ CursorDrop \/ CursorCount \/ CursorUnwind \/ CursorGone
   \/ BulkStart \/ BulkPull \/ BulkTail
   \/ CloneStart \/ CloneKey \/ CloneVal \/ CloneEq \/ CloneEqPanicked \/ CloneEqVal \/ CloneSwap \/ CloneDrop \/ CloneGone
+  \/ CloneFromOld \/ CloneFromSwap \/ CloneFromDrop \/ CloneFromGone
   \/ FaStep \/ FaAfter \/ BinaryDone \/ AlgStep \/ AlgAfter \/ AlgSoft \/ SubStep \/ SubAfter \/ SubTail \/ SubReturned \/ SubDrop
   \/ DrainStart \/ DrainNext \/ DrainDebug \/ DrainDrop \/ DrainCount
   \/ Done
@@ -870,7 +906,7 @@ MacroPre == [i \in 1..Len(L.pre) |-> [c |-> L.pre[i][1], r |-> 0, v |-> 0, kt |-
 MacroPost(r) == [i \in 1..Len(r.post) |-> <<r.post[i].kt, r.post[i].c, r.post[i].vt>>]
 MacroPanics(r) ==
   IF L.op.name \in {"from_iter", "from_array", "s_from_iter", "s_from_array", "s_extend"} THEN r.ret.r = "panic"
-  ELSE IF L.op.name \in {"drain", "s_drain", "cursor", "s_into_iter", "clone"} THEN FALSE     \* (episode records; these never panic by themselves)
+  ELSE IF L.op.name \in {"drain", "s_drain", "cursor", "s_into_iter", "clone", "clone_from", "s_clone_from"} THEN FALSE     \* (episode records; these never panic by themselves)
   ELSE r.ret[1] = "panic"
 MicroRefinesMacro ==
   (pc = "done" /\ ~Adv /\ L.out \in {"ok", "panic"} /\ L.op.name \notin BinaryNames) =>
